@@ -3,7 +3,7 @@
 From Coq Require Import String.
 From Coq Require Import List ZArith NArith Bool Arith Lia.
 Import ListNotations.
-Require Import PyLib PyLib2 Str Rx RxFacts RxSub TextModel G_fn_sir2 RefJun RefJunDec RefValue RefSub.
+Require Import PyLib PyLib2 Str Rx RxFacts RxSub TextModel G_fn_sir2 RefJun RefStr RefBase RefSub.
 Notation vstr := RefJun.vstr.
 
 Definition enc_as (cls : list Z) (saltv rh : pyval) (a : as_anonymizer) : pyval :=
